@@ -347,6 +347,8 @@ OutcomeRule(e, hard, soft, A) ==
     Chk("C05", "illtyped_value_not_refused", (ok /\ A.typedErr) => FALSE),
     Chk("C05", "signing_failure_swallowed", (ok /\ e.fault = 1) => FALSE),
     Chk("C08", "succeeded_although_a_failure_cause_applies", ok => hard = {}),
+    Chk("C07", "refused_for_overflow_below_the_maximum",
+        (err /\ e.out.err = "SequenceNumberTooHigh") => "SequenceNumberTooHigh" \in (hard \cup soft)),
     Chk("C09", "refused_for_size_but_fits",
         (err /\ e.out.err = "ExceedsMaxSize") => "ExceedsMaxSize" \in (hard \cup soft)),
     Chk("C08", "error_kind_matches_cause",
@@ -489,10 +491,21 @@ IdObsChecks(o, id) ==
     Chk("C16", "map_key_form", o.key_back /\ o.key_doc = <<123>> \o JsonOf(id) \o <<58, 49, 125>>)>>
 
 \* content of a JSON document that is a plain string literal without escapes: "...."
+\* ... with \uXXXX escapes of ASCII characters decoded (the only escapes this specification reads)
+RECURSIVE JsonBody(_, _, _)
+JsonBody(cs, i, acc) ==
+  IF i > Len(cs) THEN <<acc>>
+  ELSE IF cs[i] = 92 THEN
+         IF i + 5 <= Len(cs) /\ cs[i + 1] = 117 /\ \A k \in 2..5 : HexVal(cs[i + k]) < 16
+         THEN LET v == HexVal(cs[i + 2]) * 4096 + HexVal(cs[i + 3]) * 256 + HexVal(cs[i + 4]) * 16 + HexVal(cs[i + 5]) IN
+              IF v < 128 THEN JsonBody(cs, i + 6, Append(acc, v)) ELSE <<>>
+         ELSE <<>>
+  ELSE IF cs[i] = 34 \/ cs[i] < 32 \/ cs[i] >= 127 THEN <<>>
+  ELSE JsonBody(cs, i + 1, Append(acc, cs[i]))
+
 PlainJsonString(cs) ==
   IF Len(cs) >= 2 /\ cs[1] = 34 /\ cs[Len(cs)] = 34
-     /\ \A i \in 2..(Len(cs) - 1) : cs[i] # 34 /\ cs[i] # 92 /\ cs[i] >= 32 /\ cs[i] < 127
-  THEN <<SubSeq(cs, 2, Len(cs) - 1)>> ELSE <<>>
+  THEN JsonBody(SubSeq(cs, 2, Len(cs) - 1), 1, <<>>) ELSE <<>>
 
 NodeIdChecks(e) ==
   <<Chk("C03", "nodeid_panics", e.panics = <<>>)>>
